@@ -548,6 +548,12 @@ fn check_input(prop: &str, s: &dyn Subject, sd: &SubjectDef, p: &Prepared, input
             run.sample(|| json!({"definition": p.rust, "input": show(input), "items": obs.items.iter().map(|i| json!([i.kind, i.start, i.end])).collect::<Vec<_>>(), "skipped": obs.skips}));
         }
     }
+    if panicked && prop == "C13" {
+        // the callbacks of this family only bump whole chars of the remainder: a panic of the lexer means that a match did not
+        // become the item the documented table prescribes
+        let a = obs.anomalies.iter().find(|a| a.starts_with("panic")).cloned().unwrap_or_default();
+        f.push(fnd("C13", 0, format!("the lexer panicked while running callbacks that decide from the matched text and bump within the source: {a}")));
+    }
     if !panicked {
         match prop {
             "C01" | "C02" | "C03" | "C11" | "C10" => {
